@@ -175,8 +175,8 @@ func runExchange(c *caseA) (res callResult) {
 }
 
 func workerMain(args []string) {
-	// args: w W seed nPass nRefuse logdir outfile nSeq
-	if len(args) != 8 {
+	// args: w W seed nPass nRefuse logdir outfile nSeq nAsk
+	if len(args) != 9 {
 		fmt.Fprintln(os.Stderr, "bad worker args")
 		os.Exit(2)
 	}
@@ -184,7 +184,7 @@ func workerMain(args []string) {
 	w, W, nPass, nRefuse := atoi(args[0]), atoi(args[1]), atoi(args[3]), atoi(args[4])
 	seed, _ := strconv.ParseInt(args[2], 10, 64)
 	logdir, outfile := args[5], args[6]
-	nSeq := atoi(args[7])
+	nSeq, nAsk := atoi(args[7]), atoi(args[8])
 	if cwd, _ := os.Getwd(); strings.HasPrefix(cwd, "/verif") || strings.HasPrefix(cwd, "/repo") {
 		fmt.Fprintln(os.Stderr, "worker must not run inside /verif or /repo")
 		os.Exit(2)
@@ -317,6 +317,8 @@ func workerMain(args []string) {
 	}
 	flush()
 	runSeqCases(out, seed, w, W, nSeq, logdir)
+	flush()
+	runAskCases(out, seed, w, W, nAsk, logdir)
 	// nothing may arrive late
 	if recs, _ := readRecords(logdir, true); len(recs) != 0 {
 		out.Viols = append(out.Viols, violA{"stray-exchange", "unattributed", fmt.Sprintf("%d git credential records appeared after their call had returned", len(recs)), map[string]any{"argv": recs[0].Argv, "stdin_quoted": strconv.Quote(sbxTrunc(string(recs[0].Stdin)))}})
